@@ -78,6 +78,7 @@ INLINE_CTX = [
     ("autolink-mail", ["<a", H("a"), H("b"), "@b.c>"]),
     ("image-in-image", ["![o ![i\\", H("a"), H("b"), " &amp;](x) t](y)"]),
     ("escape-entity", ["a\\", H("a"), H("b"), " &#", H("a"), "5; b"]),
+    ("autolinks-concrete", ["<a@b.c> <http://x.y/z> ", H("a"), H("b")]),
 ]
 
 NEST_CTX = [
